@@ -300,6 +300,16 @@ namespace c16
   void run_bg(Cur& c, std::ostream& o, bool full)
   {
     BgConfig g = read_bg_config<Shape_::dimension>(c);
+    {
+      // warm-up request of the same template instantiations (discarded): other rule, other coefficients
+      BgConfig w = g;
+      w.rule = warm_rule(g.rule);
+      w.nu = g.nu + Q(1); w.theta = g.theta + Q(1); w.beta = g.beta + Q(2); w.sd_delta = g.sd_delta + Q(1);
+      if(w.mtype == "B") w.frechet = g.frechet + Q(1);
+      std::ostringstream sink;
+      Bg<Shape_> bgw(w, full, sink);
+      bgw.run_all();
+    }
     Bg<Shape_> bg(g, full, o);
     bg.run_all();
   }
